@@ -23,6 +23,7 @@ from .value import (
     TypeVarValue,
     Value,
     is_overlapping,
+    stable_iteration_order,
     unannotate,
     unite_values,
 )
@@ -153,7 +154,7 @@ class InPredicate:
         elif positive:
             acceptable_values = [
                 KnownValue(pattern_val)
-                for pattern_val in self.pattern_vals
+                for pattern_val in stable_iteration_order(self.pattern_vals)
                 if value.is_assignable(KnownValue(pattern_val), self.ctx)
             ]
             if acceptable_values:
